@@ -92,7 +92,19 @@ func setPAData(cl *Client, krberr *messages.KRBError, ASReq *messages.ASReq) err
 			// There is no KRB Error that tells us the etype to use
 			etn := cl.settings.negotiatedPreAuthEType() // Use the etype that may have previously been negotiated
 			if etn == 0 {
-				etn = int32(cl.Config.LibDefaults.PreferredPreauthTypes[0]) // Resort to config
+				// Resort to config: the first of the etypes the AS_REQ offers that the credentials hold a key for.
+				for _, id := range cl.Config.LibDefaults.DefaultTktEnctypeIDs {
+					if e, err := crypto.GetEtype(id); err == nil {
+						if _, _, err := cl.Key(e, 0, nil); err == nil {
+							etn = id
+							break
+						}
+					}
+				}
+				if etn == 0 {
+					// Nothing to pre-authenticate with yet: the KDC's error will name the etype.
+					return nil
+				}
 			}
 			et, err = crypto.GetEtype(etn)
 			if err != nil {
